@@ -359,15 +359,16 @@ func c23Fillres(res *c23Res, ids *c23IDs, msg proto.Message, md *Metadata, name 
 }
 
 type c23Env struct {
-	ser    *ProtoSerializer
-	client *Client
-	ps     *ProtoServer
-	ids    *c23IDs
-	served *[]c23Res
+	ser     *ProtoSerializer
+	client  *Client
+	ps      *ProtoServer
+	ids     *c23IDs
+	served  *[]c23Res
+	scratch *FramePool
 }
 
 func c23NewEnv(t *testing.T) *c23Env {
-	e := &c23Env{ser: NewProtoSerializer(), ids: &c23IDs{m: map[string]uint64{}}}
+	e := &c23Env{ser: NewProtoSerializer(), ids: &c23IDs{m: map[string]uint64{}}, scratch: NewFramePool()}
 	e.client = &Client{serializer: NewProtoSerializer(), framePool: NewFramePool(), maxFrameSize: defaultMaxFrameSize}
 	served := []c23Res{}
 	e.served = &served
@@ -435,7 +436,10 @@ func (e *c23Env) serve(stream []byte, max uint32, chunks []int) (out []c23Res, l
 
 func (e *c23Env) decode(dec int, data []byte) (res c23Res) {
 	res.Dec = dec
-	buf := append([]byte(nil), data...) // decoders must not rely on, nor modify beyond, their input
+	// frames live in pooled, reused buffers in production: decode from one, give it back afterwards
+	buf := e.scratch.Get(len(data))
+	copy(buf, data)
+	defer e.scratch.Put(buf)
 	defer func() {
 		if r := recover(); r != nil {
 			res = c23Res{Dec: dec, Class: 5, Panic: fmt.Sprint(r)}
@@ -672,7 +676,7 @@ func TestVerifC23(t *testing.T) {
 	dir := verifOutDir(t)
 	r := newVerifRNG(verifSeed())
 	thorough := os.Getenv("VERIF_TIER") == "thorough"
-	nRT, nMal, nStreams := 160, 700, 60
+	nRT, nMal, nStreams := 200, 700, 60
 	if thorough {
 		nRT, nMal, nStreams = 1200, 6000, 400
 	}
@@ -711,7 +715,7 @@ func TestVerifC23(t *testing.T) {
 	typesSeen := map[string]bool{}
 
 	for i := 0; i < nRT; i++ {
-		mt := types[(i+r.intn(3))%len(types)]
+		mt := types[i%len(types)]
 		msg := mt.New()
 		c23Fill(r, msg, 3)
 		m := msg.Interface()
@@ -828,6 +832,15 @@ func TestVerifC23(t *testing.T) {
 			c := e.runCase(idx, m.kind, m.data, []int{1, 2, 3, 4})
 			idx++
 			nm++
+			if m.kind == "metalen" && len(m.data) >= 12 {
+				if v := binary.BigEndian.Uint32(m.data[8:12]); v >= 1 && v <= 9 {
+					for _, res := range c.Res {
+						if (res.Dec == 2 && res.Class == 0) || (res.Dec == 4 && res.Class == 0 && res.HasMD) {
+							c.Oracle = append(c.Oracle, fmt.Sprintf("decoder %d accepted a metadata section of %d bytes (a metadata block has at least 10)", res.Dec, v))
+						}
+					}
+				}
+			}
 			if m.kind == "trunc" {
 				for _, res := range c.Res {
 					if res.Class == 0 || (res.Dec == 4 && res.Class != 9) {
